@@ -28,7 +28,7 @@ ASSUMPTIONS = [
     '"rendering in that zone" is relative to the zone database pytz ships',
     'refusal of ET missing only at the closing instant is stricter than the property and is not tested either way',
 ]
-SIZES = {'quick': dict(ts=24000, staged=12, bad=240), 'thorough': dict(ts=1200000, staged=300, bad=8000)}
+SIZES = {'quick': dict(ts=36000, staged=16, bad=320), 'thorough': dict(ts=1200000, staged=300, bad=8000)}
 REQUIRED = {
     tier: {
         'timestamps-checked': 10000,
